@@ -96,6 +96,20 @@ Definition apply_batch (db : smap) (c : cache) (diff_enc : val) (prune : option 
 Definition delete_batch (df : diff) (b : blk) (save_temp : bool) : list wr :=
   revert_writes df ++ [(kDiff (b_height b), None)] ++ remove_block b save_temp.
 
+(* ---- the enumerated exceptions of "deleting the tip restores the previous state" ----
+   the finalized-height marker (monotone, never reverted); temp-block records of the heights touched;
+   event records pruned by saveBlock (exactly its IterateRange bounds, [ev] = minEventDeleteHeight when > 0);
+   diff records of finalized heights pruned by processBlock (heights < [dfb]) *)
+Definition exception (ev dfb : option N) (temps : list N) (k : key) : bool :=
+  keqb k kFinalized
+  || existsb (fun h => keqb k (kTemp h)) temps
+  || (match ev with Some m => leb (kEvents 0) k && leb k (kEvents m) | None => false end)
+  || (match dfb with Some m => is_prefix [pfxStateDiff] k && (u32_of (tl k) <? m) | None => false end).
+
+(* the exceptions of one apply step, as computed by the code *)
+Definition ev_bound (fh h : N) (keep : Z) : option N :=
+  if (keep >? -1)%Z && (min_event_delete fh h keep >? 0)%Z then Some (Z.to_N (min_event_delete fh h keep)) else None.
+
 (* ---- block_cache.go: the cached tip (heights only matter here; newest first, at most maxSize) ---- *)
 Definition bcache := list (N * key).   (* (height, id), newest first *)
 Definition bc_push (maxSize : nat) (c : bcache) (h : N) (id : key) : option bcache :=
